@@ -94,7 +94,7 @@ def any_dependency_to_module_other_than(
         if node in checked_nodes:
             continue
 
-        if node in nodes_to_exclude or node in nodes_not_to_analyse:
+        if node in nodes_not_to_analyse:
             continue
 
         checked_nodes.add(node)
@@ -103,13 +103,13 @@ def any_dependency_to_module_other_than(
 
         for child in children:
             if not graph.parent_child_relationship(node, child):
+                # all sub modules of the dependent are already queued; imported modules are never analysed themselves,
+                # and a sub module of the dependent is analysed even if it is also (part of) a dependent upon module
                 if (
                     child not in nodes_to_exclude
                     and child not in nodes_that_do_not_fulfill_criterion
                 ):
                     nodes_fulfilling_criteria.append(tuple(to_modules([node, child])))
-                else:
-                    nodes_to_check.append(child)
 
     return nodes_fulfilling_criteria  # type: ignore
 
